@@ -2,9 +2,16 @@ package tk
 
 import (
 	"context"
+	"fmt"
+	"strings"
+	"sync"
 
 	"github.com/tink-crypto/tink-go/v2/aead"
+	"github.com/tink-crypto/tink-go/v2/core/registry"
+	"github.com/tink-crypto/tink-go/v2/insecurecleartextkeyset"
+	"github.com/tink-crypto/tink-go/v2/keyset"
 	tinkpb "github.com/tink-crypto/tink-go/v2/proto/tink_go_proto"
+	"github.com/tink-crypto/tink-go/v2/testing/fakekms"
 	"github.com/tink-crypto/tink-go/v2/tink"
 )
 
@@ -36,8 +43,24 @@ func (e envCtx) Decrypt(ct, ad []byte) ([]byte, error) {
 
 // Envelope builds the KMS envelope AEAD through one of its two public constructors:
 // api "aead2" = aead.NewKMSEnvelopeAEAD2, api "withcontext" = aead.NewKMSEnvelopeAEADWithContext
-// (wrapped so that both present tink.AEAD).  Same wire format, separate code paths.
+// (wrapped so that both present tink.AEAD), or - api "keyset" - through the keyset / key-manager
+// route: keyset.NewHandle(aead.CreateKMSEnvelopeAEADKeyTemplate(uri, dekTemplate)) and aead.New,
+// with kek reachable under uri through a KMS client registered in the global registry.  Same wire
+// format (the template is RAW), separate code paths.
 func Envelope(api string, dekTemplate *tinkpb.KeyTemplate, kek tink.AEAD) (tink.AEAD, error) {
+	if api == "keyset" {
+		uri, release := KEKURI(kek)
+		defer release()
+		kt, err := aead.CreateKMSEnvelopeAEADKeyTemplate(uri, dekTemplate)
+		if err != nil {
+			return nil, err
+		}
+		h, err := keyset.NewHandle(kt)
+		if err != nil {
+			return nil, err
+		}
+		return aead.New(h)
+	}
 	if api == "withcontext" {
 		e, err := aead.NewKMSEnvelopeAEADWithContext(dekTemplate, ctxKEK{kek})
 		if err != nil {
@@ -48,5 +71,94 @@ func Envelope(api string, dekTemplate *tinkpb.KeyTemplate, kek tink.AEAD) (tink.
 	return aead.NewKMSEnvelopeAEAD2(dekTemplate, kek), nil
 }
 
-// EnvelopeAPIs are the values Envelope accepts.
+// EnvelopeAPIs are the two constructor values of Envelope's api.
 var EnvelopeAPIs = []string{"aead2", "withcontext"}
+
+// EnvelopeAPIsAll adds the keyset / key-manager route.
+var EnvelopeAPIsAll = []string{"aead2", "withcontext", "keyset"}
+
+// verifKMS is a registry.KMSClient that serves harness-chosen key-encryption AEADs under the URIs
+// KEKURI hands out ("verif-kms://<n>").
+type verifKMS struct {
+	mu   sync.Mutex
+	n    int
+	keks map[string]tink.AEAD
+}
+
+const verifKMSPrefix = "verif-kms://"
+
+func (k *verifKMS) Supported(uri string) bool { return strings.HasPrefix(uri, verifKMSPrefix) }
+
+func (k *verifKMS) GetAEAD(uri string) (tink.AEAD, error) {
+	k.mu.Lock()
+	defer k.mu.Unlock()
+	a, ok := k.keks[uri]
+	if !ok {
+		return nil, fmt.Errorf("verif-kms: unknown key URI %q", uri)
+	}
+	return a, nil
+}
+
+var (
+	theKMS  = &verifKMS{keks: map[string]tink.AEAD{}}
+	kmsOnce sync.Once
+)
+
+// RegisterKMSClients registers (once per process) the harness's KMS client and a testing/fakekms
+// client for every "fake-kms://" URI in the global registry.
+func RegisterKMSClients() {
+	kmsOnce.Do(func() {
+		registry.RegisterKMSClient(theKMS)
+		registry.RegisterKMSClient(Must(fakekms.NewClient("fake-kms://")))
+	})
+}
+
+// KEKURI makes kek reachable through the registry under a fresh URI; release forgets it (the
+// envelope primitive fetches its KEK when it is constructed).
+func KEKURI(kek tink.AEAD) (uri string, release func()) {
+	RegisterKMSClients()
+	theKMS.mu.Lock()
+	defer theKMS.mu.Unlock()
+	theKMS.n++
+	uri = fmt.Sprintf("%s%d", verifKMSPrefix, theKMS.n)
+	theKMS.keks[uri] = kek
+	return uri, func() {
+		theKMS.mu.Lock()
+		defer theKMS.mu.Unlock()
+		delete(theKMS.keks, uri)
+	}
+}
+
+// EnvelopeKey describes one KmsEnvelopeAead entry of a keyset built by EnvelopeFromURI.
+type EnvelopeKey struct {
+	DEK    *tinkpb.KeyTemplate
+	Prefix tinkpb.OutputPrefixType // RAW (what the key template says) or TINK / CRUNCHY / LEGACY
+	ID     uint32
+}
+
+// EnvelopeFromURI builds a keyset whose entries are KmsEnvelopeAead keys for one KEK URI (key data
+// from the key manager via registry.NewKeyData, output prefix type and key id as given: the proto
+// keyset is assembled here), reads it as a handle and returns aead.New(handle).
+func EnvelopeFromURI(uri string, primary int, keys []EnvelopeKey) (tink.AEAD, error) {
+	RegisterKMSClients()
+	ks := &tinkpb.Keyset{}
+	for i, k := range keys {
+		kt, err := aead.CreateKMSEnvelopeAEADKeyTemplate(uri, k.DEK)
+		if err != nil {
+			return nil, err
+		}
+		kd, err := registry.NewKeyData(kt)
+		if err != nil {
+			return nil, err
+		}
+		ks.Key = append(ks.Key, &tinkpb.Keyset_Key{KeyData: kd, Status: tinkpb.KeyStatusType_ENABLED, KeyId: k.ID, OutputPrefixType: k.Prefix})
+		if i == primary {
+			ks.PrimaryKeyId = k.ID
+		}
+	}
+	h, err := insecurecleartextkeyset.Read(&keyset.MemReaderWriter{Keyset: ks})
+	if err != nil {
+		return nil, err
+	}
+	return aead.New(h)
+}
